@@ -1,5 +1,6 @@
 import Lean.Data.Json
 import EudoxiaModel.Model.Obs
+import EudoxiaModel.Model.Csv
 /-! JSON → observation records (the shape produced by the harness and by the driver itself). -/
 open Lean Eudoxia
 
@@ -80,5 +81,37 @@ def etrace (j : Json) : Except String ETrace := do
            ops := { pid := ← natList (← field o "pid"), parents := ← (← arr (← field o "parents")).mapM natList },
            init := ← world (← field j "init"),
            steps := ← (← arr (← field j "steps")).mapM stepObs }
+
+def optV (j : Json) : Option String := match j with | .str s => some s | _ => none
+
+def csvRow (j : Json) : Except String Csv.Row := do
+  let l ← arr j
+  return { pid := ← nat (← nth l 0), arrival := optV (← nth l 1), prio := ← (← nth l 2).getStr?, opId := ← nat (← nth l 3),
+           parents := ← natList (← nth l 4), base := ← (← nth l 5).getStr?, law := ← (← nth l 6).getStr?,
+           mem := optV (← nth l 7), read := ← (← nth l 8).getStr? }
+
+def csvRows (j : Json) : Except String (List Csv.Row) := do (← arr j).mapM csvRow
+
+def csvOp (j : Json) : Except String Csv.COp := do
+  let l ← arr j
+  return { parents := ← natList (← nth l 0), base := ← (← nth l 1).getStr?, law := ← (← nth l 2).getStr?,
+           mem := optV (← nth l 3), read := ← (← nth l 4).getStr? }
+
+def csvPipes (j : Json) : Except String (List Csv.CPipe) := do
+  (← arr j).mapM (fun p => do
+    let l ← arr p
+    return { prio := ← (← nth l 0).getStr?, arrival := ← (← nth l 1).getStr?, ops := ← (← arr (← nth l 2)).mapM csvOp })
+
+def js (s : String) : String := (Json.str s).compress
+def jopt (o : Option String) : String := match o with | some s => js s | none => "null"
+def jl (l : List String) : String := "[" ++ ",".intercalate l ++ "]"
+
+def showPipes (ps : List Csv.CPipe) : String :=
+  jl (ps.map (fun p => jl [js p.prio, js p.arrival, jl (p.ops.map (fun o =>
+    jl [jl (o.parents.map toString), js o.base, js o.law, jopt o.mem, js o.read]))]))
+
+def showRows (rs : List Csv.Row) : String :=
+  jl (rs.map (fun r => jl [toString r.pid, jopt r.arrival, js r.prio, toString r.opId, jl (r.parents.map toString),
+    js r.base, js r.law, jopt r.mem, js r.read]))
 
 end DJ
